@@ -313,4 +313,57 @@ theorem readInetAdressOnly (buf : List UInt8) (h : buf.length < 2^63) :
       simp only [hok', Bool.not_false, if_true]
       rfl
 
+/-! ### `readInet` -/
+
+/-- explicit form of the generated `readInetAdressOnly` on a non-empty buffer -/
+theorem gen_inet_cons (a : UInt8) (r : List UInt8) (h : r.length + 1 < 2^63) :
+    Gen.Frame.framer_readInetAdressOnly ((a :: r).map (·.toBitVec))
+      = if (!(a.toNat == 4 || a.toNat == 16)) = true then none
+        else if r.length < a.toNat then none
+        else some ((r.drop a.toNat).map (·.toBitVec), (r.take a.toNat).map (·.toBitVec)) := by
+  unfold Gen.Frame.framer_readInetAdressOnly
+  rw [List.length_map, show (0x1#64 : BitVec 64) = BitVec.ofNat 64 1 from rfl, slt_ofNat _ _ (by simpa using h) (by decide)]
+  have h0 : ¬ (r.length + 1 < 1) := by omega
+  simp only [List.length_cons, h0, decide_false, Bool.false_eq_true, if_false, List.map_cons, List.getD_cons_zero, List.drop_succ_cons,
+    List.drop_zero]
+  have hsz : a.toBitVec.setWidth 64 = BitVec.ofNat 64 a.toNat := by
+    apply BitVec.eq_of_toNat_eq; have := UInt8.toNat_lt a; simp
+  have e4 : ∀ b : BitVec 8, (b == 0x4#8) = (b.toNat == 4) := by decide
+  have e16 : ∀ b : BitVec 8, (b == 0x10#8) = (b.toNat == 16) := by decide
+  rw [e4, e16, hsz, List.length_map, slt_ofNat _ _ (by omega) (by have := UInt8.toNat_lt a; omega)]
+  simp only [UInt8.toNat_toBitVec]
+  by_cases hok : (a.toNat == 4 || a.toNat == 16) = true
+  · simp only [hok, Bool.not_true, Bool.false_eq_true, if_false]
+    by_cases hs : r.length < a.toNat
+    · simp [hs]
+    · simp only [hs, decide_false, Bool.false_eq_true, if_false]
+      rw [goCopy_full a.toNat _ (by simp; omega), List.map_drop, List.map_take]
+  · have hok' : (a.toNat == 4 || a.toNat == 16) = false := by simpa using hok
+    simp only [hok', Bool.not_false, if_true]
+
+/-- `readInet` (`return f.readInetAdressOnly(), f.readInt()`: both calls hoisted, in order) -/
+theorem readInet (buf : List UInt8) (h : buf.length < 2^63) :
+    (match Gen.Frame.framer_readInet (buf.map (·.toBitVec)) with
+     | none => Outcome.err
+     | some (fb, ip, port) => Outcome.ok ((ip.map UInt8.ofBitVec, port.toInt), fb.map UInt8.ofBitVec))
+      = FrameRead.readInet buf := by
+  unfold Gen.Frame.framer_readInet FrameRead.readInet
+  rcases buf with _ | ⟨a, r⟩
+  · rfl
+  · have hr : r.length + 1 < 2^63 := by simpa using h
+    simp only [bind, P.bind]
+    rw [gen_inet_cons a r hr, mod_inet_cons]
+    by_cases hok : (!(a.toNat == 4 || a.toNat == 16)) = true
+    · simp [hok]
+    · simp only [hok, if_false, slice]
+      by_cases hs : r.length < a.toNat
+      · simp [hs]
+      · simp only [hs, if_false]
+        have hi := readInt (r.drop a.toNat) (by simp; omega)
+        cases hg : Gen.Frame.framer_readInt ((r.drop a.toNat).map (·.toBitVec)) with
+        | none => rw [hg] at hi; simp [res] at hi; rw [List.map_drop] at hg; simp [← hi, hg]
+        | some x =>
+          obtain ⟨fb, port⟩ := x
+          rw [hg] at hi; simp [res] at hi; rw [List.map_drop] at hg; simp [← hi, hg, pure, P.pure, ← List.map_take, back2]
+
 end GenTie.FrameRd
